@@ -421,10 +421,10 @@ pub fn run_c15(ctx: &mut Ctx) {
             ops.push(SOp::Solve(vec![]));
             ctx.count("histories/instance-text-above-64KiB");
             ops
-        } else if matches!(b, Backend::Cadical) && i % 3_001 == 17 {
-            // a hard instance behind a selector: pigeonhole 8 -> 7 (thousands of conflicts), every clause
-            // guarded by -s; satisfiable without the assumption s, unsatisfiable under it
-            let (p, h) = (8isize, 7isize);
+        } else if matches!(b, Backend::Cadical) && i % 6_001 == 17 {
+            // a hard instance behind a selector: pigeonhole 10 -> 9 (tens of thousands of conflicts), every
+            // clause guarded by -s; satisfiable without the assumption s, unsatisfiable under it
+            let (p, h) = (10isize, 9isize);
             let var = |i: isize, j: isize| -> isize { i * h + j + 1 };
             let s = p * h + 1;
             let mut ops: Vec<SOp> = Vec::new();
